@@ -4,7 +4,7 @@
 From stdpp Require Import gmap sets.
 From Coq Require Import ZArith.
 From SV Require Import SM.IdMan SM.IdManProofs SM.IdManSpec SM.IdManSpecProofs SM.IdLife SM.IdLifeProofs
-  SM.IdWorld SM.IdWorldProofs SM.IdNode SM.IdNodeProofs SM.IdFixupHist SM.IdFixupHistProofs SM.IdNest SM.IdNestProofs Gen.IdSites_gen.
+  SM.IdWorld SM.IdWorldProofs SM.IdNode SM.IdNodeProofs SM.IdFixupHist SM.IdFixupHistProofs SM.IdNest SM.IdNestProofs SM.IdNodeMaps SM.IdNodeMapsProofs Gen.IdSites_gen.
 Open Scope Z_scope.
 
 (** Release discipline read from the source census (Gen/IdSites_gen.v). *)
@@ -211,3 +211,18 @@ Theorem c08_nested_collapse_is_copies : ∀ r1 r2 r3 c1 c2 c3 w s m, s ≠ m →
   tstep r1 r2 r3 c1 c2 c3 w (TCollapse s m) =
   fold_left (tstep r1 r2 r3 c1 c2 c3) ((λ t, TCopy t m (-1) true) <$> (tlisted_of w s false ++ tlisted_of w s true)) w.
 Proof. exact tcollapse_is_copies. Qed.
+
+(** Round 3.  Nav-node IDs over several maps (SM/IdNodeMaps.v): after every history of construction / parse with any
+    'nodeid' value in any map, key assignment, deletion, removal, re-adding, destruction, copy within and ACROSS maps,
+    reservations by Instance.fixup_key and collapse_one of node entities into another map (copy every entity, then
+    reserve-and-reassign every copied node ID), in every map the node IDs held by existing entities are pairwise
+    distinct and positive — under the same two census premises as c08_node_ids_unique. *)
+Theorem c08_node_maps_ids_unique : ∀ es m, node_release_on_remove = false → node_copy_registers = true →
+  let w := mrun node_realloc_on_add node_release_on_remove node_release_in_del node_copy_registers es in
+  NoDup (nids (nents (mmap w m))) ∧ (∀ i, i ∈ nids (nents (mmap w m)) → 0 < i).
+Proof. intros es m -> ->. exact (node_maps_ids_nodup_pos _ _ es m). Qed.
+(** Without registration a cross-map copy brings the source's ID into a map where it is taken already. *)
+Theorem c08_node_maps_copy_unregistered_refuted :
+  let w := mrun false false true false [MCreate 0 (Some 1); MCreate 1 (Some 1); MCopy 0 1] in
+  nids (nents (mmap w 1)) = [1; 1].
+Proof. exact node_maps_copy_unregistered_refuted. Qed.
